@@ -117,6 +117,8 @@ def executions(case: dict[str, Any]) -> Iterator[dict[str, Any]]:
             "src_subdir": rng.random() < 0.15,
             "crlf": rng.random() < 0.15,
             "padded": rng.getrandbits(32) if rng.random() < 0.06 else None,
+            "src_name": rng.randrange(6) if rng.random() < 0.15 else None,
+            "out_name": rng.randrange(6) if rng.random() < 0.15 else None,
         }
 
     for m in mappings:
@@ -199,6 +201,10 @@ def run_single(case: dict[str, Any], stats: Stats) -> list[Violation]:
         spec["argv_style"] = case["argv_style"]
     for flag in case.get("flags") or []:
         spec[flag] = True
+    out_role = "out_ips" if spec["out"].endswith((".ips", "a.out")) else "out_sfc"
+    if case.get("out_name") is not None and not spec.get("no_output_opt"):
+        # other names a user gives the output: the extension says nothing about the format
+        spec["out"] = ["Out.IPS", "rom.smc", "patch file.bin", "out", "o.ips.sfc", "caf\u00e9.ips"][case["out_name"] % 6]
     if case.get("out_subdir") and not spec.get("no_output_opt"):
         spec["out"] = "out dir/" + spec["out"]
     mapping = spec.get("mapping") or spec.get("rom") or "low"
@@ -209,6 +215,7 @@ def run_single(case: dict[str, Any], stats: Stats) -> list[Violation]:
     files = prog.all_files()
     roles = prog.all_roles()
     roles.update({"out.ips": "out_ips", "out.sfc": "out_sfc", "out.sym": "symfile", "a.out": "out_ips", "out dir/out.ips": "out_ips", "out dir/out.sfc": "out_sfc"})
+    roles[spec["out"]] = out_role
     if spec["out"].startswith("out dir/"):
         files["out dir/.keep"] = b""
     if case.get("crlf"):
@@ -232,6 +239,12 @@ def run_single(case: dict[str, Any], stats: Stats) -> list[Violation]:
         files["src dir/main.s"] = files.pop("main.s")
         roles["src dir/main.s"] = "source"
         spec["src"] = "src dir/main.s"
+    if case.get("src_name") is not None and not case.get("src_subdir"):
+        # other names for the main source (extension, case, spaces, non-ASCII, several dots, none)
+        newname = ["prog.asm", "\u00fcn\u00ef code.s", "main", "MAIN.S", "game.v1.2.s", "main.s.bak"][case["src_name"] % 6]
+        files[newname] = files.pop("main.s")
+        roles[newname] = "source"
+        spec["src"] = newname
     if case.get("stale") is not None:
         import random as _r
 
@@ -240,7 +253,7 @@ def run_single(case: dict[str, Any], stats: Stats) -> list[Violation]:
     o = entries.execute_one(files, roles, spec, case.get("knobs") or {}, [])
     stats.add_outcome(o)
     entry = spec["entry"]
-    fmt = spec.get("format") or ("sfc" if spec["out"].endswith(".sfc") else "ips")
+    fmt = spec.get("format") or ("sfc" if entry == "assemble" else "ips")  # never from the file name
     copier = bool(spec.get("copier"))
     stats.bump(f"probe:lattice:{entry}:{fmt}:{'copier' if copier else 'plain'}")
     stats.bump(f"probe:mapping:{mapping}")
@@ -374,7 +387,7 @@ def sample_of(case: dict[str, Any]) -> Any:
 def shrink_candidates(case: dict[str, Any]) -> Iterator[dict[str, Any]]:
     if case.get("type") != "single":
         return
-    for key, val in (("stale", None), ("abs_paths", False), ("subprocess", False), ("positional_first", True), ("argv_order", None), ("argv_style", None), ("flags", []), ("out_subdir", False), ("src_subdir", False), ("crlf", False), ("padded", None)):
+    for key, val in (("stale", None), ("abs_paths", False), ("subprocess", False), ("positional_first", True), ("argv_order", None), ("argv_style", None), ("flags", []), ("out_subdir", False), ("src_subdir", False), ("crlf", False), ("padded", None), ("src_name", None), ("out_name", None)):
         if case.get(key) not in (val, None):
             c = dict(case)
             c[key] = val
